@@ -410,6 +410,10 @@ def resolve_pipeline(job, res, prelim, coq):
         if cls == "?syntax":
             verdicts = coq.ans.get(("names", (res["id"], "syntax")), [])
             kws = [n for n, code in verdicts if code == 1]
+            other_kws = [n for n, code in verdicts if code == 3]
+            if other_kws:
+                out.append(("keyword-leaks-" + other_kws[0], f"generated module does not compile: name(s) {other_kws} are Python keywords ({what})"))
+                continue
             bad = [n for n, code in verdicts if code == 2]
             hostile_meta = [v for v in _meta_strings(res) if any(ch in v for ch in '"\\\n\r')]
             if kws:
@@ -653,6 +657,8 @@ def run(ck: Check):
         what = f"safe_name({it[1]['name']!r}, {it[1]['prefix']!r}, {it[1]['case']}) = {it[2]['ok']!r}"
         if code == 1:
             ck.failure("keyword-not-reserved", what + " is a Python keyword", {"op": it[1], "impl": it[2]})
+        elif code == 3:
+            ck.failure("keyword-leaks-" + it[2]["ok"], what + " is a Python keyword (and not the known missing one)", {"op": it[1], "impl": it[2]})
         elif code == 2 and it[1]["case"] == "originalCase":
             ck.failure("original-case-non-identifier", what + " is not an identifier", {"op": it[1], "impl": it[2]})
         elif code != 0:
@@ -688,7 +694,8 @@ def run(ck: Check):
     codes = coq_codes("filter_usable", "str", "name_verdict", [cstr(it[2]["ok"]) for it in ok_items])
     for it, code in zip(ok_items, codes):
         case = dict(DEFAULT_CONV, **it[1]["conv"])[it[1]["fn"]][0]
-        cls = {1: "keyword-not-reserved", 2: "original-case-non-identifier" if case == "originalCase" else "safe-name-not-identifier"}.get(code)
+        cls = {1: "keyword-not-reserved", 3: "keyword-leaks-" + it[2]["ok"],
+               2: "original-case-non-identifier" if case == "originalCase" else "safe-name-not-identifier"}.get(code)
         if cls:
             ck.failure(cls, f"Filters.{it[1]['fn']}({it[1]['name']!r}) = {it[2]['ok']!r} under {it[1]['conv']}", {"op": it[1], "impl": it[2]})
     for it in items:
